@@ -31,10 +31,40 @@ func runC14(r *Report) {
 		s    Site
 		name string
 	}
+	// an unexported helper of the package whose only effect is o.WriteString("\r\n") on its first parameter
+	isCRLFHelper := func(c ssa.CallInstruction) bool {
+		callee := c.Common().StaticCallee()
+		if callee == nil || callee.Blocks == nil || isExportedName(callee.Name()) || !strings.HasPrefix(FuncName(callee), "rueidis.") || len(callee.Params) == 0 {
+			return false
+		}
+		n := 0
+		for _, b := range callee.Blocks {
+			for _, in := range b.Instrs {
+				cc, ok := in.(ssa.CallInstruction)
+				if !ok {
+					continue
+				}
+				a := cc.Common().Args
+				s, iss := "", false
+				if len(a) == 2 {
+					s, iss = ConstString(a[1])
+				}
+				if CalleeName(cc) != "bufio.(*Writer).WriteString" || a[0] != ssa.Value(callee.Params[0]) || !iss || s != "\r\n" {
+					return false
+				}
+				n++
+			}
+		}
+		return n == 1
+	}
 	writerCalls := func(fn *ssa.Function) []wcall {
 		var out []wcall
 		for _, s := range Sites(fn, func(in ssa.Instruction) bool { _, ok := in.(ssa.CallInstruction); return ok }) {
 			n := CalleeName(s.Call())
+			if isCRLFHelper(s.Call()) {
+				out = append(out, wcall{s, "crlf-helper"})
+				continue
+			}
 			if bufWriteMethods[n] || n == "rueidis.writeN" || n == "rueidis.writeB" || n == "rueidis.writeS" || n == "rueidis.writeCmd" || n == "bufio.(*Writer).Flush" {
 				out = append(out, wcall{s, n})
 			} else if n == "" || !strings.HasPrefix(n, "builtin.") && !strings.HasPrefix(n, "math.") {
@@ -99,7 +129,7 @@ func runC14(r *Report) {
 			a0, a1, a2 := wc[0].s.Call().Common().Args, wc[1].s.Call().Common().Args, wc[2].s.Call().Common().Args
 			ok = wc[0].name == "rueidis.writeN" && Desc(a0[0]) == "p0" && Desc(a0[1]) == "p1" && isLenOf(a0[2], "p2") &&
 				wc[1].name == "bufio.(*Writer).WriteString" && Desc(a1[0]) == "p0" && Desc(a1[1]) == "p2" &&
-				wc[2].name == "bufio.(*Writer).WriteString" && Desc(a2[0]) == "p0" && isCRLF(a2[1])
+				(wc[2].name == "bufio.(*Writer).WriteString" && Desc(a2[0]) == "p0" && isCRLF(a2[1]) || wc[2].name == "crlf-helper" && Desc(a2[0]) == "p0")
 			why = "sequence: " + wc[0].name + ", " + wc[1].name + ", " + wc[2].name
 		}
 		r.Ob("R14a", fn, "bulk-string:length-of-the-same-string,payload,CRLF", fn.Pos(), ok, "writeB writes id+len(str), str itself, CRLF, in this order and nothing else; "+why)
@@ -130,7 +160,7 @@ func runC14(r *Report) {
 					ok, why = false, "a byte other than '0'+digit is written between id and CRLF: "+Desc(args[1])
 				}
 				nDigits++
-			case w.name == "bufio.(*Writer).WriteString" && Desc(args[0]) == "p0" && isCRLF(args[1]):
+			case w.name == "bufio.(*Writer).WriteString" && Desc(args[0]) == "p0" && isCRLF(args[1]), w.name == "crlf-helper" && Desc(args[0]) == "p0":
 				nTrail++
 				// nothing is written after the trailer
 				bad, _ := Reaches(w.s, func(s Site) bool {
@@ -151,7 +181,7 @@ func runC14(r *Report) {
 		if ok {
 			for _, ret := range ReturnsAvoiding(fn, func(in ssa.Instruction) bool {
 				c, isc := in.(ssa.CallInstruction)
-				return isc && CalleeName(c) == "bufio.(*Writer).WriteString" && isCRLF(c.Common().Args[1])
+				return isc && (CalleeName(c) == "bufio.(*Writer).WriteString" && isCRLF(c.Common().Args[1]) || isCRLFHelper(c))
 			}) {
 				_ = ret
 				ok, why = false, "a path returns without writing the CRLF trailer"
